@@ -254,7 +254,8 @@ def c20d(ctx):
                    'come from the old shared file, a rewritten address is answered 304 for the validator of its previous content')
     tr = ctx.fn('mapproxy/service/tile.py:TileResponse.__init__')
     want = {'self.timestamp': 'tile.timestamp', 'self.size': 'tile.size', 'self.cacheable': 'tile.cacheable'}
-    got = {unparse(s.targets[0]): unparse(s.value) for s in tr.walk() if isinstance(s, ast.Assign)}
+    # (closed forms: a value may pass through a local on its way from the tile to the response)
+    got = {unparse(s.targets[0]): tr.ctext(s.value, at=tr.cfg.node_for(s)) for s in tr.walk() if isinstance(s, ast.Assign)}
     ok = all(got.get(k) == v for k, v in want.items())
     ctx.check(ok, 'TileResponse.__init__:copies-validators', 'TileResponse copies timestamp, size and cacheable from the tile', tr,
               fail='TileResponse does not take timestamp/size/cacheable from the tile it wraps: %s' % {k: got.get(k) for k in want})
